@@ -195,6 +195,9 @@ def run(ctx):
         if want:
             ctx.stmt_guard('C09.r5', c, [x], want, puts, gname='stored_block_number < block_number')
     batch_script_set(ctx)
+    # reviewed reference of the storage functions' durable writes (engine/census.py)
+    from rules import census_fns
+    census_fns.run(ctx, 'C09')
 
 
 def _noop():
